@@ -173,7 +173,7 @@ def thumb_expand_imm_c(imm12: int, carry_in: int):
         carry_out = carry_in
     else:
         unrotated_value = chain(1, substring(imm12, 6, 0), 7)
-        imm32, carry_out = ror_c(unrotated_value, 8, substring(imm12, 11, 7))
+        imm32, carry_out = ror_c(unrotated_value, 32, substring(imm12, 11, 7))
     return imm32, carry_out
 
 
